@@ -692,7 +692,7 @@ func sameFields(dec map[string]ipld.Node, wire map[string]ipld.Node) (why string
 		if !ok {
 			return "field " + k + " missing from the decoded token"
 		}
-		if !datamodel.DeepEqual(dv, wv) {
+		if !nodesEqual(dv, wv) {
 			return "field " + k + " differs from the signed value"
 		}
 	}
@@ -1045,4 +1045,46 @@ func x25519Issuer(rep *Report) error {
 		}
 	}
 	return nil
+}
+
+// nodesEqual: deep equality of IPLD values with maps as unordered collections (the entry order of a map depends on who
+// built or encoded it: DAG-CBOR sorts keys length-first).
+func nodesEqual(a, b ipld.Node) bool {
+	if a == nil || b == nil || a.Kind() != b.Kind() {
+		return datamodel.DeepEqual(a, b)
+	}
+	switch a.Kind() {
+	case datamodel.Kind_Map:
+		if a.Length() != b.Length() {
+			return false
+		}
+		for it := a.MapIterator(); !it.Done(); {
+			k, av, err := it.Next()
+			if err != nil {
+				return false
+			}
+			ks, _ := k.AsString()
+			bv, err := b.LookupByString(ks)
+			if err != nil || !nodesEqual(av, bv) {
+				return false
+			}
+		}
+		return true
+	case datamodel.Kind_List:
+		if a.Length() != b.Length() {
+			return false
+		}
+		for it := a.ListIterator(); !it.Done(); {
+			i, av, err := it.Next()
+			if err != nil {
+				return false
+			}
+			bv, err := b.LookupByIndex(i)
+			if err != nil || !nodesEqual(av, bv) {
+				return false
+			}
+		}
+		return true
+	}
+	return datamodel.DeepEqual(a, b)
 }
